@@ -419,14 +419,14 @@ def rr_rules(ctx, A):
             det = show(('call', fb[0][1], [src, fb[0][2][1]], fb[0][3], fb[0][4]))[:200]
             chain = [c[1] for c in calls_in(src)]
             adapters = [short(c) for c in chain]
-            bad = [c for c in chain if re.search(r'Iterator::(rev|skip|take|filter|step_by|skip_while|chain)$|::last$', c)]
+            bad = [c for c in chain if re.search(r'Iterator::(rev|skip|take|filter|step_by|skip_while|chain|map_while|scan|take_while|fuse|cycle)$|::last$', c)]
             cl = fb[0][2][1]
             pred_ok = False
             if cl[0] == 'closure' and cl[1] in P.fns:
                 cf = P.fns[cl[1]]
                 pred_ok = any(strip(x['expr'])[0] == 'field' and strip(x['expr'])[2] == 'is_base' for x in cf.exits())
             ok = not bad and pred_ok and any(strip(x)[0] == 'arg' for x in walk(src))
-        ctx.ob(['C06', 'C04', 'C07'], 'R-EXPR', 'E6|first-base', ok, 'the base consulted for a vftable is the first pending region with is_base, found over the unadapted list: %s' % det, loc(vb[0]['span']))
+        ctx.ob(['C06', 'C04', 'C07', 'C20'], 'R-EXPR', 'E6|first-base', ok, 'the base consulted for a vftable is the first pending region with is_base, found over the unadapted list: %s' % det, loc(vb[0]['span']))
     else:
         ctx.fail_closed(['C06'], 'R-EXPR', 'E6|first-base', 'no call to vftable::build in resolve_regions', where)
 
@@ -527,7 +527,7 @@ def tdb_rules(ctx, A):
                'on the non-packed branch the test lies on every path to Ok(Some(..))', g.where())
         src = lc[2][0]
         chain = [c[1] for c in calls_in(src)]
-        bad = [short(c) for c in chain if re.search(r'Iterator::(rev|skip|take|filter|step_by|skip_while|take_while|chain|filter_map)$', c)]
+        bad = [short(c) for c in chain if re.search(r'Iterator::(rev|skip|take|filter|step_by|skip_while|take_while|chain|filter_map|map_while|scan|fuse|cycle)$', c)]
         over_R = any(strip(x) == R for x in walk(src))
         calls_align = False
         for x in walk(src):
@@ -638,6 +638,46 @@ def tdb_rules(ctx, A):
         from r_panic import cycle_without
         ok8 = bool(L) and not cycle_without(tdb, L[1], L[0], {g8[0].block})
     ctx.ob(['C05', 'C14', 'C13'], 'R-GUARD', 'G8|duplicate-method-rejected', ok8, 'an impl function whose name is already taken (by a vftable, base or earlier function) is rejected, tested in every iteration', g8[0].where() if g8 else where)
+    # a declared field keeps its own name; only the placeholder name `_` (exactly) makes it anonymous
+    from r_panic import agg_sites
+    regs_ = [(bi, st) for (g_, bi, st) in agg_sites(P, r'type_definition::Region$') if g_ is tdb]
+    okn = False
+    detn = 'no Region literal for a declared field found'
+    for bi, st in regs_:
+        d_ = dict(tdb.expr_of_rvalue(st['rv'])[2])
+        nm = d_.get('name')
+        if nm is None:
+            continue
+        rows = value_table(tdb, nm)
+        somes = [(cs, v) for cs, v in rows if strip(v)[0] == 'agg' and strip(v)[1].endswith('Option::Some')]
+        nones = [(cs, v) for cs, v in rows if strip(v)[0] == 'agg' and strip(v)[1].endswith('Option::None')]
+        if len(rows) != 2 or len(somes) != 1 or len(nones) != 1:
+            detn = 'name is not a two-way choice: %s' % show(nm)[:120]
+            continue
+        cs, v = somes[0]
+        okc = False
+        subj = None
+        if len(cs) == 1:
+            c_, lab = strip(cs[0][0]), cs[0][1]
+            neg = False
+            while c_[0] == 'un' and c_[1] == 'Not':
+                c_, neg = strip(c_[2]), not neg
+            if c_[0] == 'call' and re.search(r'::(ne|eq)$', c_[1]) and len(c_[2]) == 2:
+                is_ne = c_[1].endswith('::ne')
+                a_, b_ = strip(c_[2][0]), strip(c_[2][1])
+                lit = [x for x in (a_, b_) if x[0] == 'str']
+                oth = [x for x in (a_, b_) if x[0] != 'str']
+                if len(lit) == 1 and lit[0][1] == '_' and len(oth) == 1:
+                    # Some exactly when the identifier differs from "_"
+                    okc = ((lab is True) != neg) == is_ne
+                    subj = oth[0]
+        val = strip(strip(v)[2][0][1])
+        okv = subj is not None and any(strip(y) == subj for y in walk(val)) and subj[0] == 'field' and any(
+            isinstance(y, tuple) and y[0] == 'payload' and y[2] == 'Field' for y in walk(subj))
+        okn = okc and okv
+        detn = 'Some(%s) iff %s' % (show(val)[:60], [(show(c)[:80], l) for c, l in cs])
+    ctx.ob(['C17', 'C01', 'C20'], 'R-EXPR', 'TDB|field-name-kept', okn,
+           'a field keeps its declared name unless that name is exactly `_` (then it is an anonymous gap named after its offset later): %s' % detn, where)
     # every function of the type's impl block is built (its types resolved, its address required) — none is filtered out before
     fam_ = [tdb] + [h_ for h_ in method_family(P, tdb) if h_ is not tdb]
     okf = False
@@ -658,7 +698,7 @@ def tdb_rules(ctx, A):
             every = not cycle_without(g_, L[1], L[0], {c_['block']})
             elem = any(isinstance(y, tuple) and y[0] == 'payload' and y[2] == 'Some' and is_call(strip(y[1]), 'Iterator::next') for y in walk(g_.expr_of_operand(c_['term']['args'][-1])))
             prop = any(g.kind == 'reject' and g.pred[0] == 'fails' and find_calls(g.pred, 'function::build') and g.block in L[1] for g in guards_of(g_))
-            okf = every and elem and prop and not any(re.search(r'Iterator::(rev|skip|take|filter|step_by|skip_while|take_while|filter_map)$', x[3]) for x in calls_in(src_e))
+            okf = every and elem and prop and not any(re.search(r'Iterator::(rev|skip|take|filter|step_by|skip_while|take_while|filter_map|map_while|scan|fuse|cycle)$', x[3]) for x in calls_in(src_e))
             detf = 'iterator %s, build on every trip %s, of the element %s, error propagated %s' % (sty, every, elem, prop)
     ctx.ob(['C05', 'C10', 'C14'], 'R-ITER', 'TDB|all-impl-functions-built', okf,
            'every function of the type\'s impl block goes through function::build (unfiltered loop, every trip, error propagated): %s' % detf, where)
@@ -753,7 +793,7 @@ ORDER_BEARING = [REGION, 'grammar::TypeStatement', 'semantic::function::Function
                  'grammar::EnumStatement', 'semantic::function::Argument', 'grammar::Argument', 'grammar::Attribute', 'semantic::types::Backend',
                  'grammar::Backend', 'grammar::ItemPath', 'semantic::types::ExternValue', 'grammar::ItemDefinition', 'grammar::ExternValue']
 ORDER_CHANGING = re.compile(r'(slice::<impl \[T\]>::(sort\w*|reverse|swap|rotate_\w+|select_nth\w*)|Vec::<T, A>::(insert|remove|retain\w*|dedup\w*|drain|swap_remove|pop|truncate|split_off)|'
-                            r'Iterator::(rev|skip|take|step_by|skip_while|take_while)|DoubleEndedIterator::\w+|Iterator::(last|max\w*|min\w*))$')
+                            r'Iterator::(rev|skip|take|step_by|skip_while|take_while|map_while|scan|fuse|cycle)|DoubleEndedIterator::\w+|Iterator::(last|max\w*|min\w*))$')
 # reviewed order-changing calls: (function, callee fragment, element type fragment) -> reason
 SEQ_ALLOW = [
     ('backends::rust::write_module', 'sort_by_key', 'ItemDefinition', 'definitions are sorted by path: this is what makes the output independent of hash order (C09/C20)'),
@@ -968,5 +1008,5 @@ def plumbing(ctx):
                 ce = single_exit(P.fns[cl[1]])
                 n_ = dict(ce[2]).get('1')
                 okg = strip(n_)[0] in ('upvar', 'field', 'payload', 'arg') and not any(isinstance(y, tuple) and y[0] == 'bin' for y in walk(n_))
-    ob(['C01', 'C02', 'C11', 'C18'], 'resolve_grammar_type', okg,
+    ob(['C01', 'C02', 'C11', 'C18', 'C15', 'C05'], 'resolve_grammar_type', okg,
        'grammar types map structurally: *const→ConstPointer, *mut→MutPointer, [T; n]→Array(T, n) with n unchanged, unknown<n>→padding, names→resolve_string', f)
